@@ -2,7 +2,8 @@
     the list of requests.  (pathB) *)
 From Coq Require Import List Arith Bool ZArith Lia.
 From P9V Require Import Refs.Model Refs.PathFS Refs.RefProofs Refs.RefStep Refs.FenceProofs
-  Refs.CoherentTree Refs.CoherentDefs Refs.CoherentFs Refs.CoherentFrame Refs.CoherentStep Refs.CoherentUnlink.
+  Refs.TreeInv Refs.CoherentTree Refs.CoherentDefs Refs.CoherentFs Refs.CoherentFrame Refs.CoherentStep Refs.CoherentUnlink
+  Refs.CoherentRemove Refs.CoherentRename.
 Import ListNotations.
 
 (** the ghost list is extended at the end of each request *)
@@ -10,7 +11,7 @@ Lemma good_extend (s : st) g d : RInvD s d -> Good s g -> Good s (extend g s).
 Proof.
   intros RI G. pose proof (G_len _ _ G) as Lg. pose proof (extend_length g s Lg) as Le.
   assert (G' : Good s g) by exact G.
-  destruct G as [Gfs Gnt Gnode Gobj Gx Gf Gfi Gp Gnb Gxm Gl].
+  destruct G as [Gfs Gnt Gnode Gobj Gx Gf Gfi Gp Gnb Gxm Grt Gk Gl].
   constructor; auto; [| |lia].
   - intros r Hr Lv T N. destruct (Gobj r Hr Lv T N) as (i & Ri & Gi). exists i. split; auto. intros _.
     destruct (Nat.lt_ge_cases r (length g)) as [L|L].
@@ -45,6 +46,7 @@ Proof.
     + intros n x H. unfold nch, get_node in H. cbn in H. destruct n as [|[|n]]; discriminate.
     + intros n x c H. unfold nch, get_node in H. cbn in H. destruct n as [|[|n]]; discriminate.
     + cbn. lia.
+  - intros n. unfold get_node. cbn. destruct n as [|[|n]]; split; constructor.
 Qed.
 
 (** the requests covered so far *)
@@ -88,4 +90,64 @@ Proof.
   assert (H0 : HInv (init_state pfs (pfs_init wga inj)) []).
   { split; [apply init_inv|]. split; [apply init_good | reflexivity]. }
   destruct (hinv_run ops _ _ F H0) as (RI & G & L). eapply good_coherent; eauto.
+Qed.
+
+(** ---- every request ---- *)
+Lemma step_goodT o : gokT [] (fun s => snd (step pfs pfs_step o s)).
+Proof.
+  destruct o; try (apply gok_gokT; apply step_good; exact I); cbn [step].
+  - apply gokT_remove. - apply gokT_rename. - apply gokT_renameat.
+Qed.
+
+(** serverB's tree invariant (Refs/TreeInv.v: tree_ok, tree_closed) after every prefix of the history *)
+Definition TreeHyp (ops : list op) (s0 : st) : Prop :=
+  forall pre post, ops = pre ++ post -> TH (snd (run pfs pfs_step pre s0)).
+
+Lemma hinv_stepT o s g : HInv s g -> TH s -> s_panic pfs (snd (step pfs pfs_step o s)) = false ->
+  let s1 := snd (step pfs pfs_step o s) in HInv s1 (extend g s1).
+Proof.
+  intros (RI & G & L) TT HP. cbv zeta.
+  destruct (step_ok pfs pfs_step o s [] RI ltac:(intros x [])) as (RI1 & _).
+  pose proof (step_goodT o s [] g RI ltac:(intros x []) TT G HP) as G1. cbv beta in G1.
+  split; [exact RI1|]. split; [eapply good_extend; eauto|]. apply extend_length. apply (G_len _ _ G1).
+Qed.
+
+Lemma run_cons o pre (s : st) : snd (run pfs pfs_step (o :: pre) s) = snd (run pfs pfs_step pre (snd (step pfs pfs_step o s))).
+Proof. cbn [run]. destruct (step pfs pfs_step o s) as [r s1]. cbn [snd]. destruct (run pfs pfs_step pre s1). reflexivity. Qed.
+
+Lemma hinv_runT ops : forall s g, TreeHyp ops s -> HInv s g -> HInv (fst (run_g ops s g)) (snd (run_g ops s g)).
+Proof.
+  induction ops as [|o ops IH]; intros s g TH0 H; [exact H|].
+  cbn [run_g]. apply IH.
+  - intros pre post E. rewrite <- run_cons. apply (TH0 (o :: pre) post). rewrite E. reflexivity.
+  - apply hinv_stepT; auto.
+    + apply (TH0 [] (o :: ops)). reflexivity.
+    + pose proof (TH0 [o] ops eq_refl) as (_ & TC). rewrite run_cons in TC. cbn [run snd] in TC. apply TC.
+Qed.
+
+(** C08_coherent: every history (all twenty request kinds), PathFS, any failure injection *)
+Theorem coherent_history ops wga inj :
+  TreeHyp ops (init_state pfs (pfs_init wga inj)) ->
+  let r := run_g ops (init_state pfs (pfs_init wga inj)) [] in coherent (fst r) (snd r).
+Proof.
+  intros TH0. cbv zeta.
+  assert (H0 : HInv (init_state pfs (pfs_init wga inj)) []).
+  { split; [apply init_inv|]. split; [apply init_good | reflexivity]. }
+  destruct (hinv_runT ops _ _ TH0 H0) as (RI & G & L). eapply good_coherent; eauto.
+Qed.
+
+(** ... from serverB's two history theorems (to be proved in Refs/TreeProofs.v), for histories along which the
+    node graph stays acyclic (assumption B2, which PathFS enforces) and no fuelled recursion ran out of fuel *)
+Theorem coherent_history_tree :
+  tree_inv_holds -> tree_closed_holds ->
+  forall ops wga inj,
+  (forall pre post, ops = pre ++ post -> acyclic pfs (snd (run pfs pfs_step pre (init_state pfs (pfs_init wga inj)))) /\
+                                           s_oof pfs (snd (run pfs pfs_step pre (init_state pfs (pfs_init wga inj)))) = false) ->
+  let r := run_g ops (init_state pfs (pfs_init wga inj)) [] in coherent (fst r) (snd r).
+Proof.
+  intros TI TC ops wga inj HA. apply coherent_history. intros pre post E. split.
+  - apply TI.
+  - apply TC.
+    + intros pre' post' E'. apply (HA pre' (post' ++ post)). rewrite E, E', app_assoc. reflexivity.
+    + apply (HA pre post E).
 Qed.
